@@ -50,6 +50,13 @@ def run(ctx) -> None:
     r08_2(ctx)
     r08_3(ctx)
     r08_4(ctx)
+    # tools applied one after the other to the shared handle see "the items that follow those consumed
+    # before": how much each tool consumes is C05's business — the two table rules are shared here
+    from . import c01, c05
+    from .common import Relabel
+    ctx.rule("R08.5", "consumption of a shared handle matches the stdlib: islice table (R05.5) and lock-step argument order (R05.6)")
+    c05.r05_5(Relabel(ctx, "R08.5"))
+    c01._lockstep_order(Relabel(ctx, "R08.5"))
 
 
 def r08_1(ctx) -> None:
